@@ -81,6 +81,23 @@ func faultEnumerate(rt *rapid.T, st *Stats, prop string, c Case, run faultRunner
 	}
 }
 
+// faultPrelude builds, in 60% of the histories, a tree of 5-12 items with
+// spread priorities that is flushed and re-opened before the generated history
+// starts: the following calls then have to load a multi-level tree from the
+// file, so that faults can land between two levels of a recursive mutation.
+func faultPrelude(rt *rapid.T) []Op {
+	if uni(rt, 10, "prelude") >= 6 {
+		return nil
+	}
+	n := 5 + uni(rt, 8, "preluden")
+	perm := rapid.Permutation(KeyPool[:14]).Draw(rt, "preludekeys")
+	var ops []Op
+	for i := 0; i < n; i++ {
+		ops = append(ops, Op{K: OpSet, C: 0, Key: perm[i], Val: []byte{byte('A' + i)}, Prio: int32(uni(rt, 1000, "preludeprio"))})
+	}
+	return append(ops, Op{K: OpFlush}, Op{K: OpReopen, Flag: uni(rt, 2, "preludedrop")})
+}
+
 func TestC07(t *testing.T) {
 	st := NewStats("C07", c07Rule, append(append([]string{}, commonAssumptions...),
 		"Exist and EvictSomeItems have no error result: held to 'no panic, state unchanged' only",
@@ -98,6 +115,7 @@ func TestC07(t *testing.T) {
 	rapid.Check(t, func(rt *rapid.T) {
 		c := gen.Draw(rt, "case")
 		c.Cfg.Mem = false
+		c.Ops = append(faultPrelude(rt), c.Ops...)
 		histories++
 		faultEnumerate(rt, st, "C07", c, RunFault)
 	})
@@ -117,6 +135,7 @@ func TestC18Fault(t *testing.T) {
 	rapid.Check(t, func(rt *rapid.T) {
 		c := gen.Draw(rt, "case")
 		c.Cfg.Mem = false
+		c.Ops = append(faultPrelude(rt), c.Ops...)
 		faultEnumerate(rt, st, "C18", c, RunFault)
 	})
 }
